@@ -3,6 +3,7 @@
 -/
 import PatchModel.Model.Driver
 import PatchModel.Lemmas.DriverFacts
+import PatchModel.Lemmas.Cpp
 namespace PatchModel.C18
 open PatchModel PatchModel.DriverFacts
 
@@ -13,10 +14,65 @@ theorem backupName_spec (o : Options) (p : Bytes) :
   unfold backupName
   cases h1 : o.backupPrefix <;> cases h2 : o.backupSuffix <;> simp
 
-/-- the first backup of an existing regular file moves its bytes and mode to the backup name; the target path is then free -/
+theorem backupName_ne_nil (o : Options) (p : Bytes) : backupName o p ≠ [] := by
+  have h0 : str ".orig" = [46, 111, 114, 105, 103] := by
+    unfold str String.toUTF8; rw [Cpp.byteArray_toList_eq_data]; rfl
+  unfold backupName
+  cases h1 : o.backupPrefix <;> cases h2 : o.backupSuffix <;> simp [h0]
+
+/-! ### `Backup::make_backup_for` — now: `ensure_parent_directories(backup name)` first (`-B bak/`)
+
+    `makeBackupFor_after_dirs` / `makeBackupFor_absent_after_dirs` are the general statements: whatever
+    `ensure_parent_directories` did (its operations are `mkdir`s of directory prefixes of the backup name, and nothing that was
+    in the tree is lost: `DriverFacts.ensureParentDirs_shape`), the backup operation follows.  The two special cases spelled
+    out: all directories of the backup name are there already (`makeBackupFor_existing` / `_absent`: the statements as they
+    were, with that hypothesis added), and exactly one directory, missing (`makeBackupFor_existing_mkdir`: `-B bak/` in a tree
+    without `bak`). -/
+
+/-- the backup of an existing regular file, after `ensure_parent_directories` has led from `s` (with the bookkeeping done) to `s1` -/
+theorem makeBackupFor_after_dirs (o : Options) (p : Bytes) (s s1 : DState) (b : Bytes) (m : Nat)
+    (hnot : ¬ s.backedUp.contains (backupName o p) = true)
+    (hens : (ensureParentDirs (backupName o p)).run { s with backedUp := s.backedUp ++ [backupName o p] } = (.ok (), s1))
+    (hfile : s1.fs.lookup (absPath s p) = some (.file b m))
+    (hdir : s1.fs.dirExists (parentOf (absPath s (backupName o p))) = true)
+    (hne : absPath s (backupName o p) ≠ absPath s p)
+    (hf : s.faultAt = none) :
+    ∃ s', (makeBackupFor o p).run s = (.ok (), s') ∧
+      s'.fs.lookup (absPath s (backupName o p)) = some (.file b m) ∧
+      s'.fs.lookup (absPath s p) = none ∧
+      s'.backedUp.contains (backupName o p) = true ∧
+      s'.trace = s1.trace ++ [FsOp.rename (absPath s p) (absPath s (backupName o p))] := by
+  obtain ⟨⟨fs', t, n, rfl⟩, -⟩ := ensureParentDirs_shape _ hens
+  have hfile : fs'.lookup (absPath s p) = some (.file b m) := hfile
+  have hdir : fs'.dirExists (parentOf (absPath s (backupName o p))) = true := hdir
+  have hst := Fs.stat_of_file hfile
+  have happ : fs'.apply (.rename (absPath s p) (absPath s (backupName o p))) =
+      .ok ((fs'.erase (absPath s p)).set (absPath s (backupName o p)) (.file b m)) := by
+    simp only [Fs.apply, hfile, hdir]; rfl
+  refine ⟨{ s with backedUp := s.backedUp ++ [backupName o p],
+                   fs := (fs'.erase (absPath s p)).set (absPath s (backupName o p)) (.file b m),
+                   trace := t ++ [FsOp.rename (absPath s p) (absPath s (backupName o p))],
+                   opCount := n + 1 }, ?_, ?_, ?_, ?_, ?_⟩
+  · rw [makeBackupFor_run, if_neg hnot, hens]
+    simp only []
+    have e1 : ∀ q, absPath { s with backedUp := s.backedUp ++ [backupName o p], fs := fs', trace := t, opCount := n } q = absPath s q :=
+      fun _ => rfl
+    simp only [e1]
+    rw [hst, if_pos (by rfl)]
+    exact doOp_run_ok (s := { s with backedUp := s.backedUp ++ [backupName o p], fs := fs', trace := t, opCount := n }) hf happ
+  · exact Fs.lookup_set_self _ _ _
+  · show (Fs.set _ _ _).lookup _ = none
+    rw [Fs.lookup_set_ne _ _ _ _ (Ne.symm hne), Fs.lookup_erase_self]
+  · simp
+  · rfl
+
+/-- the first backup of an existing regular file moves its bytes and mode to the backup name; the target path is then free.
+    (The directories of the backup name are all there: `hdirs`, new — the statement was without it, when `make_backup_for` did not
+    look at them; without it the operations may start with `mkdir`s: `makeBackupFor_existing_mkdir`.) -/
 theorem makeBackupFor_existing (o : Options) (p : Bytes) (s : DState) (b : Bytes) (m : Nat)
     (hnot : ¬ s.backedUp.contains (backupName o p) = true)
     (hfile : s.fs.lookup (absPath s p) = some (.file b m))
+    (hdirs : ∀ d ∈ dirPrefixes (backupName o p), (s.fs.lookup (absPath s d)).isSome = true)
     (hdir : s.fs.dirExists (parentOf (absPath s (backupName o p))) = true)
     (hne : absPath s (backupName o p) ≠ absPath s p)
     (hf : s.faultAt = none) :
@@ -24,43 +80,100 @@ theorem makeBackupFor_existing (o : Options) (p : Bytes) (s : DState) (b : Bytes
       s'.fs.lookup (absPath s (backupName o p)) = some (.file b m) ∧
       s'.fs.lookup (absPath s p) = none ∧
       s'.backedUp.contains (backupName o p) = true ∧
-      s'.trace = s.trace ++ [FsOp.rename (absPath s p) (absPath s (backupName o p))] := by
-  have hst := Fs.stat_of_file hfile
-  have happ : s.fs.apply (.rename (absPath s p) (absPath s (backupName o p))) =
-      .ok ((s.fs.erase (absPath s p)).set (absPath s (backupName o p)) (.file b m)) := by
-    simp only [Fs.apply, hfile, hdir]; rfl
-  refine ⟨{ s with backedUp := s.backedUp ++ [backupName o p],
-                   fs := (s.fs.erase (absPath s p)).set (absPath s (backupName o p)) (.file b m),
-                   trace := s.trace ++ [FsOp.rename (absPath s p) (absPath s (backupName o p))],
-                   opCount := s.opCount + 1 }, ?_, ?_, ?_, ?_, ?_⟩
-  · rw [makeBackupFor_run, if_neg hnot, hst, if_pos (by rfl)]
-    exact doOp_run_ok hf happ
-  · exact Fs.lookup_set_self _ _ _
-  · show (Fs.set _ _ _).lookup _ = none
-    rw [Fs.lookup_set_ne _ _ _ _ (Ne.symm hne), Fs.lookup_erase_self]
-  · simp
-  · rfl
+      s'.trace = s.trace ++ [FsOp.rename (absPath s p) (absPath s (backupName o p))] :=
+  makeBackupFor_after_dirs o p s
+    { s with backedUp := s.backedUp ++ [backupName o p], opCount := s.opCount + (dirPrefixes (backupName o p)).length } b m hnot
+    (ensureParentDirs_run_exist (backupName o p) { s with backedUp := s.backedUp ++ [backupName o p] } (backupName_ne_nil o p) hf hdirs)
+    hfile hdir hne hf
 
-set_option linter.unusedVariables false in
-/-- a target that does not exist yields an empty backup file -/
+/-- **`-B bak/` and no directory `bak` yet**: the backup name has exactly one directory `d`, which is missing (its own parent is
+    there): `make_backup_for` creates it and then moves the file there — `mkdir d`, `rename p (backup name)` -/
+theorem makeBackupFor_existing_mkdir (o : Options) (p d : Bytes) (s : DState) (b : Bytes) (m : Nat)
+    (hnot : ¬ s.backedUp.contains (backupName o p) = true)
+    (hfile : s.fs.lookup (absPath s p) = some (.file b m))
+    (hd : dirPrefixes (backupName o p) = [d])
+    (hnew : s.fs.lookup (absPath s d) = none)
+    (hpar : s.fs.dirExists (parentOf (absPath s d)) = true)
+    (hin : parentOf (absPath s (backupName o p)) = absPath s d)
+    (hne : absPath s (backupName o p) ≠ absPath s p)
+    (hf : s.faultAt = none) :
+    ∃ s', (makeBackupFor o p).run s = (.ok (), s') ∧
+      s'.fs.lookup (absPath s (backupName o p)) = some (.file b m) ∧
+      s'.fs.lookup (absPath s p) = none ∧
+      s'.backedUp.contains (backupName o p) = true ∧
+      s'.trace = s.trace ++ [FsOp.mkdir (absPath s d), FsOp.rename (absPath s p) (absPath s (backupName o p))] := by
+  have hpd : absPath s p ≠ absPath s d := by
+    intro e; rw [e, hnew] at hfile; cases hfile
+  obtain ⟨s', h1, h2, h3, h4, h5⟩ := makeBackupFor_after_dirs o p s
+    { s with backedUp := s.backedUp ++ [backupName o p],
+             fs := s.fs.set (absPath s d) (.dir (0o777 - (0o777 &&& s.fs.umask))),
+             trace := s.trace ++ [.mkdir (absPath s d)], opCount := s.opCount + 1 } b m hnot
+    (ensureParentDirs_run_one (backupName o p) d { s with backedUp := s.backedUp ++ [backupName o p] } (backupName_ne_nil o p) hf hd
+      hnew hpar)
+    (by show (Fs.set s.fs (absPath s d) _).lookup _ = _
+        rw [Fs.lookup_set_ne _ _ _ _ hpd]; exact hfile)
+    (by show Fs.dirExists (Fs.set s.fs (absPath s d) _) _ = true
+        rw [hin]; unfold Fs.dirExists
+        rw [Fs.lookup_set_self]; simp)
+    hne hf
+  exact ⟨s', h1, h2, h3, h4, by rw [h5]; show (s.trace ++ [_]) ++ [_] = _; rw [List.append_assoc]; rfl⟩
+
+/-- the hypotheses of `makeBackupFor_existing_mkdir` can be met: `-B bak/`, the file `f`, a tree without `bak` -/
+example : ∃ s', (makeBackupFor { defaultOptions with backupPrefix := [98, 97, 107, 47] } [102]).run
+      { fs := { nodes := [([102], .file [97, 10] 0o644)] } } = (.ok (), s') ∧
+    s'.fs.lookup [98, 97, 107, 47, 102] = some (.file [97, 10] 0o644) ∧ s'.fs.lookup [102] = none ∧
+    s'.trace = [FsOp.mkdir [98, 97, 107], FsOp.rename [102] [98, 97, 107, 47, 102]] := by
+  obtain ⟨s', h1, h2, h3, -, h5⟩ := makeBackupFor_existing_mkdir { defaultOptions with backupPrefix := [98, 97, 107, 47] } [102]
+    [98, 97, 107] { fs := { nodes := [([102], .file [97, 10] 0o644)] } } [97, 10] 0o644 (by decide) (by decide) (by decide) (by decide)
+    (by decide) (by decide) (by decide) rfl
+  exact ⟨s', h1, h2, h3, h5⟩
+
+/-- a target that does not exist yields an empty backup file, after `ensure_parent_directories` has led to `s1` -/
+theorem makeBackupFor_absent_after_dirs (o : Options) (p : Bytes) (s s1 : DState)
+    (hnot : ¬ s.backedUp.contains (backupName o p) = true)
+    (hens : (ensureParentDirs (backupName o p)).run { s with backedUp := s.backedUp ++ [backupName o p] } = (.ok (), s1))
+    (habs : s1.fs.stat (absPath s p) = none)
+    (hnone : s1.fs.stat (absPath s (backupName o p)) = none)
+    (hdir : s1.fs.dirExists (parentOf (absPath s (backupName o p))) = true)
+    (hf : s.faultAt = none) :
+    ∃ s' m, (makeBackupFor o p).run s = (.ok (), s') ∧
+      s'.fs.lookup (absPath s (backupName o p)) = some (.file [] m) ∧
+      s'.trace = s1.trace ++ [FsOp.creat (absPath s (backupName o p))] := by
+  obtain ⟨⟨fs', t, n, rfl⟩, -⟩ := ensureParentDirs_shape _ hens
+  have habs : fs'.stat (absPath s p) = none := habs
+  have hnone : fs'.stat (absPath s (backupName o p)) = none := hnone
+  have hdir : fs'.dirExists (parentOf (absPath s (backupName o p))) = true := hdir
+  have happ : fs'.apply (.creat (absPath s (backupName o p))) =
+      .ok (fs'.set (absPath s (backupName o p)) (.file [] (0o666 - (0o666 &&& fs'.umask)))) := by
+    simp only [Fs.apply, hnone, hdir]; rfl
+  refine ⟨{ s with backedUp := s.backedUp ++ [backupName o p],
+                   fs := fs'.set (absPath s (backupName o p)) (.file [] (0o666 - (0o666 &&& fs'.umask))),
+                   trace := t ++ [FsOp.creat (absPath s (backupName o p))],
+                   opCount := n + 1 }, (0o666 - (0o666 &&& fs'.umask)), ?_, ?_, rfl⟩
+  · rw [makeBackupFor_run, if_neg hnot, hens]
+    simp only []
+    have e1 : ∀ q, absPath { s with backedUp := s.backedUp ++ [backupName o p], fs := fs', trace := t, opCount := n } q = absPath s q :=
+      fun _ => rfl
+    simp only [e1]
+    rw [habs, if_neg (by simp)]
+    exact doOp_run_ok (s := { s with backedUp := s.backedUp ++ [backupName o p], fs := fs', trace := t, opCount := n }) hf happ
+  · exact Fs.lookup_set_self _ _ _
+
+/-- a target that does not exist yields an empty backup file (the directories of the backup name are all there: `hdirs`, new) -/
 theorem makeBackupFor_absent (o : Options) (p : Bytes) (s : DState)
     (hnot : ¬ s.backedUp.contains (backupName o p) = true)
     (habs : s.fs.stat (absPath s p) = none)
-    (hnone : s.fs.stat (absPath s (backupName o p)) = none) (hnl : s.fs.lookup (absPath s (backupName o p)) = none)
+    (hnone : s.fs.stat (absPath s (backupName o p)) = none)
+    (hdirs : ∀ d ∈ dirPrefixes (backupName o p), (s.fs.lookup (absPath s d)).isSome = true)
     (hdir : s.fs.dirExists (parentOf (absPath s (backupName o p))) = true)
     (hf : s.faultAt = none) :
     ∃ s' m, (makeBackupFor o p).run s = (.ok (), s') ∧
-      s'.fs.lookup (absPath s (backupName o p)) = some (.file [] m) := by
-  have happ : s.fs.apply (.creat (absPath s (backupName o p))) =
-      .ok (s.fs.set (absPath s (backupName o p)) (.file [] (0o666 - (0o666 &&& s.fs.umask)))) := by
-    simp only [Fs.apply, hnone, hdir]; rfl
-  refine ⟨{ s with backedUp := s.backedUp ++ [backupName o p],
-                   fs := s.fs.set (absPath s (backupName o p)) (.file [] (0o666 - (0o666 &&& s.fs.umask))),
-                   trace := s.trace ++ [FsOp.creat (absPath s (backupName o p))],
-                   opCount := s.opCount + 1 }, (0o666 - (0o666 &&& s.fs.umask)), ?_, ?_⟩
-  · rw [makeBackupFor_run, if_neg hnot, habs, if_neg (by simp)]
-    exact doOp_run_ok hf happ
-  · exact Fs.lookup_set_self _ _ _
+      s'.fs.lookup (absPath s (backupName o p)) = some (.file [] m) ∧
+      s'.trace = s.trace ++ [FsOp.creat (absPath s (backupName o p))] :=
+  makeBackupFor_absent_after_dirs o p s
+    { s with backedUp := s.backedUp ++ [backupName o p], opCount := s.opCount + (dirPrefixes (backupName o p)).length } hnot
+    (ensureParentDirs_run_exist (backupName o p) { s with backedUp := s.backedUp ++ [backupName o p] } (backupName_ne_nil o p) hf hdirs)
+    habs hnone hdir hf
 
 /-- several patches for one file: only the first backup is made — a later call for the same backup name does nothing at all -/
 theorem makeBackupFor_again (o : Options) (p : Bytes) (s : DState) (hin : s.backedUp.contains (backupName o p) = true) :
@@ -78,18 +191,198 @@ def finalizeWrite (o : Options) (w : DeferredWrite) : DM Unit := do
   ensureParentDirs w.dest
   writeNow o w.dest w.perm w.backup w.content w.newMode
 
-/-- `DeferredWriter::finalize`: `finalizeWrite` for every deferred write in turn, then the removals -/
+/-- what `DeferredWriter::finalize` does for one deferred removal `(p, backup)` — the source of a git rename —, `dWrites` being
+    the deferred writes of the run: nothing if something has been written to `p` since (two files swapped); else, with a backup
+    due, `p` is MOVED to its backup name (and removed only if it is still there afterwards: an earlier section used that backup
+    name already); without, `p` is removed -/
+def finalizeRemoval (o : Options) (dWrites : List DeferredWrite) (e : Bytes × Bool) : DM Unit := do
+  if !(dWrites.any (·.dest == e.1)) then removeNow o e.1 e.2
+
+/-- `finalizeRemoval` is the body of the second loop of `finalizeDeferred`, as it is written in the model -/
+theorem finalizeRemoval_eq (o : Options) (dWrites : List DeferredWrite) (p : Bytes) (backup : Bool) :
+    finalizeRemoval o dWrites (p, backup) = (do
+      if !(dWrites.any (·.dest == p)) then
+        if backup then makeBackupFor o p
+        if !backup || (← fsExists p) then removeFileAndEmptyParents p) := by
+  unfold finalizeRemoval removeNow
+  cases backup
+  · simp
+  · simp only [Bool.not_true, Bool.false_or, ↓reduceIte]
+
+/-- `DeferredWriter::finalize`: `finalizeWrite` for every deferred write in turn, then `finalizeRemoval` for every removal -/
 theorem finalizeDeferred_writes (o : Options) :
     finalizeDeferred o = (do
       let s ← get
       for w in s.dWrites do finalizeWrite o w
-      for p in s.dRemovals do
-        if !(s.dWrites.any (·.dest == p)) then removeFileAndEmptyParents p) := by
+      for e in s.dRemovals do finalizeRemoval o s.dWrites e) := by
   rw [finalizeDeferred_eq]
-  simp only [finalizeWrite, bind_assoc]
+  simp only [finalizeWrite, finalizeRemoval, bind_assoc]
+  congr; funext s; congr; funext _; congr; funext e _
+  split <;> simp
+
+/-- a test for existence whose answer is not used is no step at all -/
+theorem fsExists_bind {α} (p : Bytes) (m : DM α) : (fsExists p >>= fun _ => m) = m := by
+  apply ExceptT.ext
+  funext s
+  rfl
+
+/-! ### the source of a git rename under -b: moved to its backup name, not deleted
+
+    Before the C++ fix "keep a backup of the file a rename moves away" the removal entry was the bare path and the step was
+    `removeFileAndEmptyParents p`: with `-b` (or a backup due because of fuzz) the old content of a renamed AND changed file was
+    nowhere to be found after the run.  Now the entry carries the backup request of its section. -/
+
+/-- something has been written to the path since (two files swapped, a chain of renames): the removal is dropped -/
+theorem finalizeRemoval_skip (o : Options) (dWrites : List DeferredWrite) (p : Bytes) (backup : Bool) (s : DState)
+    (hw : dWrites.any (·.dest == p) = true) : (finalizeRemoval o dWrites (p, backup)).run s = (.ok (), s) := by
+  unfold finalizeRemoval
+  simp only [hw, Bool.not_true, Bool.false_eq_true, ↓reduceIte]
+  rfl
+
+/-- **no backup due: the step is `remove_file_and_empty_parent_folders`, as before** (an equation of programs) -/
+theorem finalizeRemoval_plain (o : Options) (dWrites : List DeferredWrite) (p : Bytes)
+    (hw : dWrites.any (·.dest == p) = false) :
+    finalizeRemoval o dWrites (p, false) = removeFileAndEmptyParents p := by
+  unfold finalizeRemoval removeNow
+  simp [hw, fsExists_bind]
+
+/-- **backup due, regular file, backup name not used yet (its directories are there: `hdirs`, new): the step is exactly
+    `rename p (backupName o p)`** — the file, bytes and mode, is found under its backup name afterwards, the path is free, and
+    there is no `unlink` of it -/
+theorem finalizeRemoval_backup (o : Options) (dWrites : List DeferredWrite) (p : Bytes) (s : DState) (b : Bytes) (m : Nat)
+    (hw : dWrites.any (·.dest == p) = false)
+    (hnot : ¬ s.backedUp.contains (backupName o p) = true)
+    (hfile : s.fs.lookup (absPath s p) = some (.file b m))
+    (hdirs : ∀ d ∈ dirPrefixes (backupName o p), (s.fs.lookup (absPath s d)).isSome = true)
+    (hdir : s.fs.dirExists (parentOf (absPath s (backupName o p))) = true)
+    (hne : absPath s (backupName o p) ≠ absPath s p)
+    (hf : s.faultAt = none) :
+    ∃ s', (finalizeRemoval o dWrites (p, true)).run s = (.ok (), s') ∧
+      s'.trace = s.trace ++ [FsOp.rename (absPath s p) (absPath s (backupName o p))] ∧
+      s'.fs.lookup (absPath s (backupName o p)) = some (.file b m) ∧
+      s'.fs.lookup (absPath s p) = none ∧
+      s'.backedUp.contains (backupName o p) = true := by
+  obtain ⟨s', hrun, hbak, hgone, hbu, htr⟩ := makeBackupFor_existing o p s b m hnot hfile hdirs hdir hne hf
+  have hcwd : s'.cwd = s.cwd := (backupStep_shape o true p (s := s) (by rw [if_pos rfl]; exact hrun)).1
+  refine ⟨s', ?_, htr, hbak, hgone, hbu⟩
+  unfold finalizeRemoval removeNow
+  simp only [hw, Bool.not_false, ↓reduceIte, Bool.not_true, Bool.false_or]
+  rw [run_bind, hrun]
+  simp only []
+  rw [run_bind, run_fsExists]
+  simp only []
+  have : s'.fs.stat (absPath s' p) = none := by
+    rw [absPath_cwd hcwd]; unfold Fs.stat; rw [hgone]
+  rw [this]
+  rfl
+
+/-- the same whatever happens (an I/O error injected or real, a directory of the backup name that cannot be made): when a backup is
+    due for an existing regular file and its backup name has not been used, the operations of the step are `mkdir`s of directories
+    of the backup name, followed by the backup `rename` or by nothing at all — **never an `unlink`**; the step succeeds exactly
+    when the rename was made.
+
+    CHANGED with the model change "`make_backup_for` creates the directories of the backup name": the `mkdir`s `M` are new (the
+    statement was `s'.trace = s.trace ∧ … ∨ s'.trace = s.trace ++ [rename …] ∧ …`; it is `finalizeRemoval_backup_only_flat` below,
+    for a backup name without directory part). -/
+theorem finalizeRemoval_backup_only (o : Options) (dWrites : List DeferredWrite) (p : Bytes) (s s' : DState) (b : Bytes) (m : Nat)
+    (r : Except Exn Unit)
+    (hnot : ¬ s.backedUp.contains (backupName o p) = true)
+    (hfile : s.fs.lookup (absPath s p) = some (.file b m))
+    (hne : absPath s (backupName o p) ≠ absPath s p)
+    (h : (finalizeRemoval o dWrites (p, true)).run s = (r, s')) :
+    ∃ M, (∀ op ∈ M, ∃ d ∈ dirPrefixes (backupName o p), op = FsOp.mkdir (absPath s d)) ∧
+      ((s'.trace = s.trace ++ M ∧ (r = .ok () → dWrites.any (·.dest == p) = true)) ∨
+       (s'.trace = s.trace ++ M ++ [FsOp.rename (absPath s p) (absPath s (backupName o p))] ∧ r = .ok ())) := by
+  unfold finalizeRemoval removeNow at h
+  cases hw : dWrites.any (·.dest == p)
+  · simp only [hw, Bool.not_false, ↓reduceIte, Bool.not_true, Bool.false_or] at h
+    rw [run_bind] at h
+    rcases hb : (makeBackupFor o p).run s with ⟨r1, s1⟩
+    rw [hb] at h
+    rw [makeBackupFor_run, if_neg hnot] at hb
+    rcases hens : (ensureParentDirs (backupName o p)).run { s with backedUp := s.backedUp ++ [backupName o p] } with ⟨r0, s0⟩
+    rw [hens] at hb
+    obtain ⟨⟨fs0, t, n, rfl⟩, ⟨M, tM, hM⟩, -, hkeep⟩ := ensureParentDirs_shape _ hens
+    have tM : t = s.trace ++ M := tM
+    have hM : ∀ op ∈ M, ∃ d ∈ dirPrefixes (backupName o p), op = FsOp.mkdir (absPath s d) := hM
+    have hfile0 : fs0.lookup (absPath s p) = some (.file b m) := hkeep _ _ hfile
+    refine ⟨M, hM, ?_⟩
+    cases r0 with
+    | error e0 =>
+      simp only [] at hb
+      cases hb
+      simp only [] at h
+      cases h
+      exact Or.inl ⟨tM, fun he => by cases he⟩
+    | ok u0 =>
+      simp only [] at hb
+      have e1 : ∀ q, absPath { s with backedUp := s.backedUp ++ [backupName o p], fs := fs0, trace := t, opCount := n } q = absPath s q :=
+        fun _ => rfl
+      simp only [e1] at hb
+      rw [Fs.stat_of_file hfile0, if_pos (by rfl)] at hb
+      rcases doOp_cases hb with ⟨rfl, fs', happ, rfl⟩ | ⟨rfl, rfl⟩
+      · have hfs : fs' = (fs0.erase (absPath s p)).set (absPath s (backupName o p)) (.file b m) := by
+          have happ : fs0.apply (.rename (absPath s p) (absPath s (backupName o p))) = .ok fs' := happ
+          simp only [Fs.apply, hfile0] at happ
+          split at happ
+          · cases happ
+          · cases happ; rfl
+        simp only [] at h
+        rw [run_bind, run_fsExists] at h
+        simp only [] at h
+        have hgone : fs'.stat (absPath s p) = none := by
+          unfold Fs.stat
+          rw [hfs, Fs.lookup_set_ne _ _ _ _ (Ne.symm hne), Fs.lookup_erase_self]
+        have habs : ∀ fs1 t n bu, absPath { s with backedUp := bu, fs := fs1, trace := t, opCount := n } p = absPath s p :=
+          fun _ _ _ _ => rfl
+        rw [habs, hgone] at h
+        cases h
+        exact Or.inr ⟨by show t ++ _ = _; rw [tM], rfl⟩
+      · simp only [] at h
+        cases h
+        exact Or.inl ⟨tM, fun he => by cases he⟩
+  · simp only [hw, Bool.not_true, Bool.false_eq_true, ↓reduceIte] at h
+    cases h
+    exact ⟨[], by simp, Or.inl ⟨by simp, fun _ => rfl⟩⟩
+
+/-- the statement as it was, for a backup name without directory part (no `/` in prefix and path): the operations of the step are
+    the backup `rename` or nothing at all -/
+theorem finalizeRemoval_backup_only_flat (o : Options) (dWrites : List DeferredWrite) (p : Bytes) (s s' : DState) (b : Bytes) (m : Nat)
+    (r : Except Exn Unit)
+    (hflat : dirPrefixes (backupName o p) = [])
+    (hnot : ¬ s.backedUp.contains (backupName o p) = true)
+    (hfile : s.fs.lookup (absPath s p) = some (.file b m))
+    (hne : absPath s (backupName o p) ≠ absPath s p)
+    (h : (finalizeRemoval o dWrites (p, true)).run s = (r, s')) :
+    (s'.trace = s.trace ∧ (r = .ok () → dWrites.any (·.dest == p) = true)) ∨
+    (s'.trace = s.trace ++ [FsOp.rename (absPath s p) (absPath s (backupName o p))] ∧ r = .ok ()) := by
+  obtain ⟨M, hM, hr⟩ := finalizeRemoval_backup_only o dWrites p s s' b m r hnot hfile hne h
+  have : M = [] := by
+    cases M with
+    | nil => rfl
+    | cons x xs =>
+      obtain ⟨d, hd, _⟩ := hM x List.mem_cons_self
+      rw [hflat] at hd; cases hd
+  subst this
+  simpa using hr
+
+/-- backup due but an earlier section made that backup already (the file was patched before it is renamed away: its ORIGINAL
+    content is in the backup): the file is still there and is removed as before -/
+theorem finalizeRemoval_again (o : Options) (dWrites : List DeferredWrite) (p : Bytes) (s : DState)
+    (hw : dWrites.any (·.dest == p) = false)
+    (hin : s.backedUp.contains (backupName o p) = true)
+    (hex : (s.fs.stat (absPath s p)).isSome = true) :
+    (finalizeRemoval o dWrites (p, true)).run s = (removeFileAndEmptyParents p).run s := by
+  unfold finalizeRemoval removeNow
+  simp only [hw, Bool.not_false, ↓reduceIte, Bool.not_true, Bool.false_or]
+  rw [run_bind, makeBackupFor_again o p s hin]
+  simp only []
+  rw [run_bind, run_fsExists, hex]
+  rfl
 
 /-- the operations of `pre; writeNow …` where `pre` only creates directories: `pre ++ bk ++ post` with
-    * `pre`: `mkdir`s and the `chmod` that makes a read-only target writable,
+    * `pre`: `mkdir`s (of the directories of the target and — after the `chmod` — of the backup name) and the `chmod` that makes a
+      read-only target writable,
     * `bk`: the backup — the `rename` of the target to its backup name, or the `creat` of an empty backup —, or nothing,
     * `post`: the `creat` of the target, followed by its `write` and the `chmod` of the permission callback;
     **if a backup is due (`sb`, and none was made for this name before), nothing happens to the target before the backup operation
@@ -113,17 +406,20 @@ theorem writeNow_backup_first {pre : DM Unit} (o : Options) (out : Bytes) (perm 
   · next _ s1 h1 =>
     obtain ⟨c1, b1⟩ := hk _ _ _ h1
     obtain ⟨D, t1, hD⟩ := ht.run h1
-    obtain ⟨-, W, B, C, t, hW, hB, hC, hfirst, hnone, hok, -⟩ := writeNow_shape _ _ _ _ _ _ h
+    obtain ⟨-, W, M, B, C, t, hW, hM, hB, hC, hfirst, hnone, hok, -⟩ := writeNow_shape _ _ _ _ _ _ h
     rw [absPath_cwd c1] at hW hC
     rw [absPath_cwd c1, absPath_cwd c1] at hB
     rw [b1] at hfirst hnone
-    refine ⟨D ++ W, B, C, by rw [t, t1]; simp only [List.append_assoc], ?_, hB, hC, hfirst, hnone, hok⟩
+    refine ⟨D ++ W ++ M, B, C, by rw [t, t1]; simp only [List.append_assoc], ?_, hB, hC, hfirst, fun h => (hnone h).2, hok⟩
     intro op hop
     rcases List.mem_append.1 hop with h | h
-    · exact Or.inl (hD op h)
-    · rcases hW with rfl | ⟨m, rfl⟩
-      · cases h
-      · rw [List.mem_singleton.1 h]; exact Or.inr ⟨m, rfl⟩
+    · rcases List.mem_append.1 h with h | h
+      · exact Or.inl (hD op h)
+      · rcases hW with rfl | ⟨m, rfl⟩
+        · cases h
+        · rw [List.mem_singleton.1 h]; exact Or.inr ⟨m, rfl⟩
+    · obtain ⟨d, _, e⟩ := hM op h
+      exact Or.inl ⟨_, e⟩
   · next e s1 h1 =>
     cases h
     obtain ⟨D, t1, hD⟩ := ht.run h1
@@ -177,10 +473,20 @@ theorem direct_write_backup_first (o : Options) (p : Patch) (out : Bytes) (perm 
 end PatchModel.C18
 
 #print axioms PatchModel.C18.backupName_spec
+#print axioms PatchModel.C18.makeBackupFor_after_dirs
 #print axioms PatchModel.C18.makeBackupFor_existing
+#print axioms PatchModel.C18.makeBackupFor_existing_mkdir
+#print axioms PatchModel.C18.makeBackupFor_absent_after_dirs
 #print axioms PatchModel.C18.makeBackupFor_absent
 #print axioms PatchModel.C18.makeBackupFor_again
 #print axioms PatchModel.C18.finalizeDeferred_writes
+#print axioms PatchModel.C18.finalizeRemoval_eq
+#print axioms PatchModel.C18.finalizeRemoval_skip
+#print axioms PatchModel.C18.finalizeRemoval_plain
+#print axioms PatchModel.C18.finalizeRemoval_backup
+#print axioms PatchModel.C18.finalizeRemoval_backup_only
+#print axioms PatchModel.C18.finalizeRemoval_backup_only_flat
+#print axioms PatchModel.C18.finalizeRemoval_again
 #print axioms PatchModel.C18.writeNow_backup_first
 #print axioms PatchModel.C18.finalize_backup_first
 #print axioms PatchModel.C18.direct_write_backup_first
